@@ -45,6 +45,10 @@ def run(repo: Repo, chk: Check):
     r10bc(repo, chk)
     r10d(repo, chk)
     r10e(repo, chk)
+    chk.rule("R10.f", "an error reported for this text is made from this text: nothing cached across compilations holds an exception or syntax-tree node "
+                      "(the constexpr cache stores decoded results only; shared with R11.f)", floor=1)
+    from .c11 import cache_values
+    chk.guarded(cache_values, repo, chk, "R10.f")
 
 
 # ---------------------------------------------------------------------- R10.a
